@@ -597,6 +597,13 @@ class FnTr:
                 return ("app", "clz", [z(n), g]), U(32)
             if name == "trailing_zeros" and t[0] == "u":
                 return ("app", "ctz", [z(n), g]), U(32)
+            if name == "reverse_bits" and t[0] == "u" and not args:      # C09 (defined by bits in the unit's raw block)
+                return ("app", "reverse_bits", [z(n), g]), t
+            if name == "count_zeros" and t[0] == "u" and not args:       # C09
+                return ("app", "count_zeros", [z(n), g]), U(32)
+            if name == "wrapping_shr" and t[0] == "u":                   # C09: the shift amount is masked to the bit width
+                gb, tb = self.expr(args[0], env, U(32))
+                return ("app", "shr", [g, ("app", "Z.modulo", [gb, z(n)])]), t
             if name == "ilog2" and t[0] == "u":
                 return ("checked", ("app", "Z.ltb", [z(0), g]), ("app", "Z.log2", [g])), U(32)
             if name == "is_power_of_two" and t[0] == "u":
